@@ -238,7 +238,7 @@ fn c15_rfc3339_range_ends() {
     kani::cover!(!at_max && h < 0);
 }
 
-// @ob tier=quick timeout=900 mem=12
+// @ob tier=thorough timeout=3600 mem=14
 // @desc quick instance of the iterator step obligation: a fresh strict or lenient iterator over "%" followed by any one ASCII byte (every single-letter specifier, known or unknown, and the bare "%"): next() never panics and a returned item strictly decreases (unconsumed bytes, queued items) -- the strict-mode "%Q" loop of finding F3 is exactly this case
 // @bounds the strings "%" and "%x" for all 128 ASCII values of x (unwind 5); longer strings: c15_strftime_step_short / _ascii (thorough)
 // @funcs StrftimeItems::{new, new_lenient, next, parse_next_item, error}, hook StrftimeItems::verif_measure
